@@ -110,13 +110,24 @@ func c12One(t *testing.T, rt *rapid.T, pi int, sharedDC *bsdiff.DiffContext, sha
 		rmode := rapid.IntRange(0, 3).Draw(rt, "readmode")
 		setup := fmt.Sprintf("%s old %d B new %d B partitions %d", kind, len(old), len(nw), partitions)
 
+		// the readers may be seekable and not at their beginning: a payload behind a header that the
+		// caller has read already. What is diffed is what they deliver from where they are.
+		oldR, newR := NewSliceReader(old, rmode, spec.Seed, false, rmode == 2), NewSliceReader(nw, rmode, spec.Seed+1, false, rmode == 3)
+		if rapid.IntRange(0, 3).Draw(rt, "preadvanced") == 0 {
+			ho, hn := rapid.IntRange(0, 5000).Draw(rt, "oldheader"), rapid.IntRange(0, 5000).Draw(rt, "newheader")
+			oldR = NewSliceReader(append(Bytes(71, ho), old...), rmode, spec.Seed, false, rmode == 2)
+			newR = NewSliceReader(append(Bytes(72, hn), nw...), rmode, spec.Seed+1, false, rmode == 3)
+			oldR.Seek(int64(ho), io.SeekStart)
+			newR.Seek(int64(hn), io.SeekStart)
+			Ev.ProbeIf(ho+hn > 0, "seekable_inputs_positioned_behind_a_header")
+		}
 		var msgs []*bsdiff.Control
 		var derr error
 		s := &Sched{Spec: spec, MaxSteps: 400000}
 		s.Run(t, func() {
 			dc := sharedDC
 			dc.Partitions, dc.SuffixSortConcurrency = partitions, conc
-			derr = dc.Do(NewSliceReader(old, rmode, spec.Seed, false, rmode == 2), NewSliceReader(nw, rmode, spec.Seed+1, false, rmode == 3), func(m proto.Message) error {
+			derr = dc.Do(oldR, newR, func(m proto.Message) error {
 				s.Yield("sink")
 				msgs = append(msgs, cloneCtrl(m))
 				return nil
@@ -178,6 +189,29 @@ func c12One(t *testing.T, rt *rapid.T, pi int, sharedDC *bsdiff.DiffContext, sha
 			Ev.Probe("same_reader_object_new_content_same_size")
 		} else {
 			sharedOld.b, sharedOld.size, sharedOld.pos = append([]byte{}, old...), len(old), 0
+		}
+		if len(old) > 40000 && rapid.IntRange(0, 3).Draw(rt, "refusedfirst") == 0 {
+			// the same context has just refused a control of some broken series: an add that runs
+			// past the end of the old file after a first buffer-full of it went through
+			var sink bytes.Buffer
+			var herr error
+			hp := Recover(func() {
+				hipc, err := pc.NewIndividualPatchContext(bytes.NewReader(old), int64(len(old)-rapid.SampledFrom([]int{32768, 33000, 39999}).Draw(rt, "refusedleft")), &sink)
+				if err != nil {
+					herr = err
+					return
+				}
+				herr = hipc.Apply(&bsdiff.Control{Add: make([]byte, rapid.SampledFrom([]int{40000, 70000}).Draw(rt, "refusedadd"))})
+			})
+			if hp != "" {
+				Violation(rt, "C12/hostile-control-panic", "an add running past the end of the old file panicked: %s (%s)", hp, setup)
+				return false
+			}
+			if herr == nil {
+				Violation(rt, "C12/hostile-control-accepted", "an add of more bytes than the old file has left was applied without error (%s)", setup)
+				return false
+			}
+			Ev.Probe("patch_context_reused_after_a_refused_control")
 		}
 		if p := Recover(func() {
 			perr = pc.Patch(oldReader, &out, int64(len(nw)), func(m proto.Message) error {
